@@ -345,3 +345,112 @@ def ob_cancel_while_queued(n: int, s1: int, s2: int, s3: int, h0: int, h1: int, 
 
 
 NCMAX = B(2, 3)
+
+
+# --------------------------------------------------------------------------------------------------------------
+# a run CONTINUED from a snapshotted context is a run of the instance like any other
+# --------------------------------------------------------------------------------------------------------------
+from workflows import Context  # noqa: E402
+from workflows.errors import WorkflowCancelledByUser  # noqa: E402
+from workflows.events import Event  # noqa: E402
+
+
+class Mid30(Event):
+    idx: int
+
+
+class _WC(Workflow):
+    """module-level; scenario in instance attributes.  Run index 0 is the one that gets interrupted (cancel_run while ``work`` is in flight)
+    and continued from its snapshot; in its first life the step just hangs (not counted), in the continuation it works like the others."""
+
+    @step
+    async def first(self, ev: StartEvent) -> Mid30:
+        return Mid30(idx=ev.idx)
+
+    @step
+    async def work(self, ev: Mid30) -> StopEvent:
+        obs, holds, loop, book = self.sc
+        i = ev.idx
+        if i == 0 and book["life"] == 1:
+            await asyncio.sleep(1000)
+        obs.inside[0] += 1
+        if obs.inside[0] > obs.peak[0]:
+            obs.peak[0] = obs.inside[0]
+        obs.entered[i] = loop.time()
+        try:
+            await asyncio.sleep(holds[i])
+        finally:
+            obs.inside[0] -= 1
+        obs.done[i] = True
+        return StopEvent(result=i)
+
+
+def _continued_scenario(limit: int, starts, holds) -> bool:
+    """run 0 of an instance with limit ``limit`` is interrupted and then CONTINUED (workflow.run(ctx=Context.from_dict(...))) at starts[0];
+    runs 1.. are fresh runs of the same instance started at starts[i]; run i works for holds[i]."""
+    import json
+
+    n = len(starts)
+    loop = SymLoop()
+    obs = _Obs(n)
+    book = {"life": 1}
+
+    async def main():
+        rt = BasicRuntime()
+        wf = _WC(timeout=None, num_concurrent_runs=limit, runtime=rt)
+        wf.sc = (obs, holds, loop, book)
+        h = wf.run(run_id="r0-first-life", idx=0)
+        await asyncio.sleep(1)
+        await h.cancel_run()
+        try:
+            await h
+            raise AssertionError("the interrupted run finished")
+        except WorkflowCancelledByUser:
+            pass
+        snap = json.loads(json.dumps(h.ctx.to_dict()))
+        book["life"] = 2
+
+        async def one(i):
+            await asyncio.sleep(starts[i])
+            if i == 0:
+                return await wf.run(ctx=Context.from_dict(wf, snap), run_id="r0")
+            return await wf.run(run_id="r%d" % i, idx=i)
+
+        res = await asyncio.gather(*[asyncio.ensure_future(one(i)) for i in range(n)], return_exceptions=True)
+        reraise_foreign(res)
+        for r in res:
+            if isinstance(r, BaseException):
+                raise r
+        for i in range(n):
+            if res[i] != i:
+                raise AssertionError("run %d returned %r" % (i, res[i]))
+
+    old = basic.time
+    basic.time = FakeTimeModule()
+    try:
+        loop.run_until_complete(main())
+    finally:
+        basic.time = old
+    return obs.peak[0] <= limit and all(obs.done)
+
+
+@obligation(quick=300, thorough=600, partitions_quick=[f"n == {n} and sc == {a}" for n in (1, 2) for a in (0, 1, 2)],
+            partitions_thorough=[f"n == {n} and sc == {a} and s1 == {b}" for n in (1, 2, 3) for a in (0, 1, 2) for b in (0, 1, 2)],
+            what="a run interrupted with cancel_run and CONTINUED from its snapshot (workflow.run(ctx=Context.from_dict(...)): no StartEvent) next "
+                 "to fresh runs of the same instance, through the REAL Workflow.run -> BasicRuntime.run_workflow -> control loop -> step: the "
+                 "continued run counts against num_concurrent_runs like any other — never more than N runs inside steps, every run executes",
+            bounds={"N": "1..2 (thorough 3)", "runs": "1 continued + 3 fresh", "start": "0..2", "hold": "1..2 (quick: the third fresh run starts at 0 and holds 1)"})
+def ob_continued_run_counts(n: int, sc: int, s1: int, s2: int, s3: int, hc: int, h1: int, h2: int, h3: int) -> bool:
+    """
+    pre: 1 <= n <= NC30 and 0 <= sc <= 2 and 0 <= s1 <= 2 and 0 <= s2 <= 2 and 0 <= s3 <= 2
+    pre: 1 <= hc <= 2 and 1 <= h1 <= 2 and 1 <= h2 <= 2 and 1 <= h3 <= 2
+    pre: NC30 == 3 or (s3 == 0 and h3 == 1)
+    post: _
+    """
+    n = concrete(n, 1, 3)
+    sc, s1, s2, s3 = concrete(sc, 0, 2), concrete(s1, 0, 2), concrete(s2, 0, 2), concrete(s3, 0, 2)
+    hc, h1, h2, h3 = concrete(hc, 1, 2), concrete(h1, 1, 2), concrete(h2, 1, 2), concrete(h3, 1, 2)
+    return _continued_scenario(n, [sc, s1, s2, s3], [hc, h1, h2, h3])
+
+
+NC30 = B(2, 3)
